@@ -226,11 +226,14 @@ def mutation(draw, kind: str, info: dict, cur: Any):
         opts = [("mux-none-case", [None, {}]), ("mux-unknown-case", ["no_such_case", content]),
                 ("mux-arity-1", [cur[0]] if isinstance(cur, (list, tuple)) and cur else [1]),
                 ("mux-arity-3", list(cur) + [1] if isinstance(cur, (list, tuple)) else [1, 2, 3]),
-                ("mux-key-without-case", [pick(free), content]), ("mux-not-a-pair:int", 5), ("mux-not-a-pair:None", None),
+                ("mux-not-a-pair:int", 5), ("mux-not-a-pair:None", None),
 
                 ("mux-float-case", [1.5, content]), ("mux-dict-two-keys", {"c0": content, "c1": content})]
         # content of the wrong shape only for cases that have content (for a case without structure there is
         # nothing the content could be represented by, so ignoring it is not a misrepresentation)
+        if dop.get("default") is None:
+            # (with a DEFAULT-CASE such a key legitimately selects it)
+            opts.append(("mux-key-without-case", [pick(free), content]))
         sel = [c for c in dop["cases"] if isinstance(cur, (list, tuple)) and cur and c["name"] == cur[0]]
         if sel and sel[0].get("st") is not None:
             opts.append(("mux-content-not-dict", [cur[0], 7]))
